@@ -24,6 +24,9 @@
 (*                   before fix 9b725dc) - TLC refutes Startable;            *)
 (*   Prune = FALSE:  a restart keeps every row of the data file (the code    *)
 (*                   before the prune_data_file fix) - TLC refutes RowsOnce. *)
+(* A third switch, AtomicPrune = FALSE, writes the pruned data file in place *)
+(* (truncate, then write): a second crash in between loses every earlier row *)
+(* - TLC refutes RowsOnce; the code goes through a temporary file.           *)
 (* With both TRUE (the current tree) every invariant holds for every crash   *)
 (* point and every chain of crashes within the bounds; with QueueLen = 0     *)
 (* (a queue shorter than the code's n-2 >= 1) TLC refutes Startable, which   *)
@@ -40,7 +43,8 @@ CONSTANTS N0,            \* paths 0..N0-1 are live and stored when the run start
           MaxCrashes,
           MaxSteps,      \* completed moves per run (bounds cstep)
           QueueLen,      \* delete_old: replaced paths kept before the oldest is deleted (the code: n-2); -1: delete_old off
-          Prune, AtomicRestart
+          Prune, AtomicRestart,
+          AtomicPrune    \* FALSE: the pruned data file is written in place (truncate, then write)
 
 NoFile == [kind |-> "none", active |-> {}, next |-> 0, cstep |-> 0]
 Torn   == [kind |-> "torn", active |-> {}, next |-> 0, cstep |-> 0]
@@ -59,11 +63,11 @@ Count(s, p) == Cardinality({i \in DOMAIN s : s[i] = p})
 IsRec(x) == x.kind = "ok"
 Snapshot(m) == [kind |-> "ok", active |-> m.active, next |-> m.next, cstep |-> m.cstep]
 NoJob == [olds |-> <<>>, news |-> <<>>, acc |-> FALSE, k |-> 0]
-NoMem == [active |-> {}, next |-> 0, cstep |-> 0, queue |-> <<>>]
+NoMem == [active |-> {}, next |-> 0, cstep |-> 0, queue |-> <<>>, kept |-> <<>>]
 
 (* ------------------------------------------------------------ effects on the disk *)
 DiskInit(n) == [rows |-> <<>>, restart |-> NoFile, tmp |-> NoFile, files |-> 0..(n - 1), partial |-> {}]
-MemInit(n)  == [active |-> 0..(n - 1), next |-> n, cstep |-> 0, queue |-> <<>>]
+MemInit(n)  == [active |-> 0..(n - 1), next |-> n, cstep |-> 0, queue |-> <<>>, kept |-> <<>>]
 FxStorePart(d, p) == [d EXCEPT !.partial = @ \cup {p}, !.files = @ \ {p}]      \* an incomplete directory (also: a stale one being rewritten)
 FxStoreDone(d, p) == [d EXCEPT !.files = @ \cup {p}, !.partial = @ \ {p}]
 FxDelete(d, p)    == [d EXCEPT !.files = @ \ {p}]
@@ -76,7 +80,7 @@ KeepRow(r, rec)   == r # TORNROW /\ r \notin rec.active /\ r < rec.next
 PruneRows(s, rec) == SelectSeq(s, LAMBDA r : KeepRow(r, rec))
 FxRestart(d)      == IF Prune THEN [d EXCEPT !.rows = PruneRows(@, d.restart)] ELSE d
 CanRestartFrom(d) == IsRec(d.restart) /\ d.restart.active \subseteq d.files
-MemFrom(d)        == [active |-> d.restart.active, next |-> d.restart.next, cstep |-> d.restart.cstep, queue |-> <<>>]
+MemFrom(d)        == [active |-> d.restart.active, next |-> d.restart.next, cstep |-> d.restart.cstep, queue |-> <<>>, kept |-> <<>>]
 
 (* the deferred deletion of delete_old, as the code orders it: delete the oldest if the queue is full, then join *)
 Queued(o)      == QueueLen >= 0 /\ o >= N0
@@ -156,22 +160,31 @@ CrashInTmp ==         \* the file being written is created empty or cut off
   /\ disk' = FxTornTmp(disk)
 
 (* ------------------------------------------------------------------ recovery *)
+NeedsPrune(d) == Prune /\ PruneRows(d.rows, d.restart) # d.rows
 Restart ==
   /\ ~up /\ CanRestartFrom(disk)
-  /\ up' = TRUE /\ pc' = "idle" /\ job' = NoJob
-  /\ mem' = MemFrom(disk)
-  /\ disk' = FxRestart(disk)
+  /\ up' = TRUE /\ job' = NoJob
+  /\ IF AtomicPrune \/ ~NeedsPrune(disk)
+     THEN disk' = FxRestart(disk) /\ pc' = "idle" /\ mem' = MemFrom(disk)
+     ELSE /\ disk' = [disk EXCEPT !.rows = <<>>] /\ pc' = "pruning"   \* the data file has just been truncated
+          /\ mem' = [MemFrom(disk) EXCEPT !.kept = PruneRows(disk.rows, disk.restart)]
   /\ UNCHANGED ncrash
+
+PruneWrite ==          \* only without AtomicPrune: the kept rows are written back into the truncated file
+  /\ up /\ pc = "pruning"
+  /\ disk' = [disk EXCEPT !.rows = mem.kept]
+  /\ pc' = "idle" /\ mem' = [mem EXCEPT !.kept = <<>>]
+  /\ UNCHANGED <<up, job, ncrash>>
 
 AnyMove == \E a, b \in mem.active, acc \in BOOLEAN : Begin(<<a>>, acc) \/ (a < b /\ Begin(<<a, b>>, acc))
 Next == \/ AnyMove
-        \/ StorePart \/ StoreDone \/ Retire \/ Row \/ Tmp \/ Replace
+        \/ StorePart \/ StoreDone \/ Retire \/ Row \/ Tmp \/ Replace \/ PruneWrite
         \/ CrashClean \/ CrashInRow \/ CrashInTmp
         \/ Restart
 Spec == Init /\ [][Next]_vars
 
 (* ------------------------------------------------------------------ properties *)
-TypeOK == /\ up \in BOOLEAN /\ pc \in {"idle", "store", "retire", "row", "tmp", "replace", "ireplace", "down"}
+TypeOK == /\ up \in BOOLEAN /\ pc \in {"idle", "store", "retire", "row", "tmp", "replace", "ireplace", "pruning", "down"}
           /\ disk.files \subseteq 0..(MaxPn - 1) /\ disk.partial \subseteq 0..(MaxPn - 1)
 
 (* a restart from what is on disk starts: the restart file is whole and every path it needs is present *)
